@@ -503,6 +503,13 @@ static int run_rsa15(const case_t *c, mx_result_t *r)
     if (inrange) dumphex("recovered s^e mod n", rec, (size_t) k);
     DUMPF("  expected=%s dontcare=%d openssl=%s siglen=%d k=%d s<n=%d\n", expected ? "accept" : "reject", dontcare, ref ? "accept" : "reject", t.siglen, k, inrange);
 
+    if (t.siglen < k && ref && !expected)
+    {
+        /* OpenSSL converts a short octet string to an integer and verifies it; RFC 8017 8.2.2 step 1 says
+           "if the length of the signature S is not k octets, output invalid signature": the RFC rule is the oracle */
+        DUMPF("  note: OpenSSL is lenient about a signature shorter than the modulus; RFC 8017 8.2.2 step 1 applies\n");
+        ref = 0;
+    }
     if (!dontcare && ref != expected)
     {
         internal_err(r, "rsa15-oracle-mismatch", "oracle says %s but OpenSSL says %s for %s", expected ? "valid" : "invalid", ref ? "valid" : "invalid", r->desc);
@@ -527,7 +534,14 @@ static int run_rsa15(const case_t *c, mx_result_t *r)
         if (acc && !expected && !dontcare)
         {
             const char *why = t.siglen != k ? "accepted-wrong-length" : !inrange ? "accepted-out-of-range" : "accepted-noncanonical";
-            snprintf(key, sizeof(key), "rsa-pkcs1|%d|%s|%s|%s|%s", K->bits, hash_name[h], t.name, an, why);
+            if (t.siglen != k || !inrange)
+            {
+                snprintf(key, sizeof(key), "rsa-pkcs1|signature-representative|%s|%s", an, why); /* one class for all keys/hashes */
+            }
+            else
+            {
+                snprintf(key, sizeof(key), "rsa-pkcs1|%d|%s|%s|%s|%s", K->bits, hash_name[h], t.name, an, why);
+            }
             violate(r, key, "%s ACCEPTED an invalid RSA-%d PKCS#1 v1.5 %s signature (%s; siglen %d, recovered EM %s the canonical encoding; OpenSSL rejects)",
                 an, K->bits, hash_name[h], t.human, t.siglen, "differs from");
         }
@@ -833,6 +847,12 @@ static int run_pss(const case_t *c, mx_result_t *r)
     if (inrange) dumphex("recovered s^e mod n", rec, (size_t) k);
     DUMPF("  expected=%s openssl=%s sLen(sign)=%d sLen(verify)=%d siglen=%d k=%d s<n=%d\n", mine ? "accept" : "reject", ref ? "accept" : "reject",
         t.salt_sign, t.salt_expect, t.siglen, k, inrange);
+    if (t.siglen < k && ref && !mine)
+    {
+        /* see run_rsa15: OpenSSL accepts short signatures, RFC 8017 8.1.2 step 1 does not */
+        DUMPF("  note: OpenSSL is lenient about a signature shorter than the modulus; RFC 8017 8.1.2 step 1 applies\n");
+        ref = 0;
+    }
     if (ref != mine)
     {
         internal_err(r, "pss-oracle-mismatch", "harness expects %s but OpenSSL says %s for %s", mine ? "valid" : "invalid", ref ? "valid" : "invalid", r->desc);
@@ -855,7 +875,14 @@ static int run_pss(const case_t *c, mx_result_t *r)
         if (acc && !ref)
         {
             const char *why = t.siglen != k ? "accepted-wrong-length" : !inrange ? "accepted-out-of-range" : "accepted-invalid-encoding";
-            snprintf(key, sizeof(key), "rsa-pss|%d|%s|%s|%s|%s", K->bits, hash_name[h], t.name, apipss_name[api], why);
+            if (t.siglen != k || !inrange)
+            {
+                snprintf(key, sizeof(key), "rsa-pss|signature-representative|%s|%s", apipss_name[api], why); /* one class for all keys/hashes */
+            }
+            else
+            {
+                snprintf(key, sizeof(key), "rsa-pss|%d|%s|%s|%s|%s", K->bits, hash_name[h], t.name, apipss_name[api], why);
+            }
             violate(r, key, "%s ACCEPTED an invalid RSA-%d PSS %s signature (%s; siglen %d, modulus %d bytes; OpenSSL rejects; RFC 8017 8.1.2/9.1.2)",
                 apipss_name[api], K->bits, hash_name[h], t.human, t.siglen, k);
         }
